@@ -31,9 +31,15 @@ type ValGen struct {
 	// noNull: inside a set Nullable the value must not encode as null (it could not
 	// be told from an unset one)
 	noNull bool
+	// NoHuge: no (further) megabyte-sized string in this value
+	NoHuge bool
 	// Stats
 	UnsetOptionals, Nulls, NonEmptyCollections, EscapeStrings int
 }
+
+// HugeStringOneIn: when > 0, one in so many JSON strings is larger than 1 MiB (set by
+// the checks whose subject reads or writes whole bodies: C10).
+var HugeStringOneIn = 0
 
 func (g *ValGen) label(s string) string { g.n++; return fmt.Sprintf("%s%d", s, g.n) }
 
@@ -57,6 +63,11 @@ func (g *ValGen) String() string {
 			s := rapid.StringMatching(`[^/\x00]{1,12}`).Draw(t, g.label("prand"))
 			return s
 		}
+	}
+	// now and then a string larger than any fixed buffer or read limit (1 MiB + a bit)
+	if g.Ctx == "json" && !g.NoHuge && HugeStringOneIn > 0 && rapid.IntRange(1, HugeStringOneIn).Draw(t, g.label("huge")) == 1 {
+		g.NoHuge = true // one per value
+		return strings.Repeat("0123456789abcdef", 70000)
 	}
 	switch rapid.IntRange(0, 3).Draw(t, g.label("skind")) {
 	case 0:
@@ -382,7 +393,16 @@ func (g *ValGen) genStruct(v reflect.Value, rs *specgen.Schema, depth int) {
 			}
 			used := map[string]bool{}
 			for j := 0; j < n; j++ {
-				m.SetMapIndex(reflect.ValueOf(g.mapKey(declared, used)), g.Gen(sf.Type.Elem(), vs, depth-1))
+				key := g.mapKey(declared, used)
+				// an additional key spelled like the Go field of a declared property ("Name"
+				// beside the declared "name") is an ordinary additional key
+				if rapid.IntRange(0, 5).Draw(t, g.label("gofieldkey")) == 0 {
+					if gf := typ.Field(rapid.IntRange(0, typ.NumField()-1).Draw(t, g.label("gofield"))).Name; gf != "AdditionalProperties" && !declared[gf] && !used[gf] {
+						used[gf] = true
+						key = gf
+					}
+				}
+				m.SetMapIndex(reflect.ValueOf(key), g.Gen(sf.Type.Elem(), vs, depth-1))
 			}
 			if n > 0 {
 				g.NonEmptyCollections++
